@@ -16,7 +16,7 @@ from vf.common import CaseResult, Check, Scratch, rng_for
 from vf.fakes3 import FakeS3Store, S3Env
 from vf.interpose import Interposer
 
-ALPHABET = ["append", "append", "multi", "delete", "delete_append", "readd", "prebuilt", "prebuilt", "expire", "delsnap", "open_tx", "open_tx_sub",
+ALPHABET = ["append", "append", "multi", "delete", "delete_append", "readd", "prebuilt", "prebuilt", "expire", "delsnap", "open_tx", "open_tx_sub", "readopt_dead",
             "commit_tx", "rollback_tx", "age", "gc", "gc0", "gc0", "fail_commit", "reopen"]
 
 LOCAL_SPELLINGS = ["abs", "rel", "dotrel", "updown", "trailing", "doubled", "symlink_root", "symlink_parent",
